@@ -23,6 +23,7 @@ RULES = [
     Rule('C02.R3', 'instrument-derived table indices in the synth are masked into range', 3),
     Rule('C02.R4', 'halving loops of the frequency search have a bounded trip count', 2),
     Rule('C02.R5', 'table reads of the chip layer at note-on / note-update are in range for every instrument and controller value', 10),
+    Rule('C02.R7', 'WOPN_Init: every bank array is allocated with the element count stored beside it, that count is at least 1, and constant subscripts stay below it', 4),
     Rule('C02.R6', 'table reads inside the MAME, Nuked and GENS emulator cores are in range for every register value', 60),
 ]
 EXPLANATION = ('Byte-budget abstract interpretation (E1) of the structured bodies of the two loaders in the (cursor, length) dialect with the '
@@ -46,6 +47,7 @@ def analyse(facts, tier):
     obls += r2(facts)
     obls += r3(facts)
     obls += r4(facts)
+    obls += r7_init(facts)
     # R5: the interval engine's index obligations inside the chip layer (instrument fields range over their whole type there:
     # structs of the public WOPN header are never narrowed), so a clamp that an instrument byte can defeat shows up here
     from .. import e2prog
@@ -329,6 +331,71 @@ def _const_local(fn, ref):
                 ok = True
     return ok
 
+
+
+def r7_init(facts):
+    """WOPN_Init allocates `banks_<kind> = calloc(N, sizeof(WOPNBank))` and stores the element count in `banks_count_<kind>`; the loader,
+    the writer and OPNMIDIplay::LoadBank walk the arrays up to the stored count, and WOPN_Init itself writes bank [0].  So N must be the
+    stored count field (of the same kind), every definition of that field must be >= 1, and constant subscripts must be 0."""
+    out = []
+    fn = facts.fn('WOPN_Init')
+    kind = lambda name: 'perc' if 'perc' in name else ('melo' if 'melo' in name else name)
+    count_defs = collections.defaultdict(list)
+    allocs = []
+    subs = []
+    for b, j, st in fn.cfg.stmts():
+        for x in walk(st['s']):
+            ap = assign_parts(x)
+            if ap:
+                t = strip(ap[0])
+                if t.get('k') == 'MemberExpr' and short(t['n']).startswith('banks_'):
+                    fld = short(t['n'])
+                    cal = [y for y in walk(ap[1]) if 'callee' in y and short(callee_name(y)) in ('calloc', 'malloc', 'realloc')]
+                    if cal:
+                        allocs.append((st['loc'], fld, cal[0]))
+                    else:
+                        count_defs[fld].append((st['loc'], ap[1]))
+            if x.get('k') == 'ArraySubscriptExpr':
+                base = strip(x.get('b'))
+                if base is not None and base.get('k') == 'MemberExpr' and short(base['n']).startswith('banks_'):
+                    subs.append((st['loc'], short(base['n']), x.get('i')))
+    if len(allocs) < 2 or len(subs) < 2:
+        raise build.AnalysisBroken('C02.R7: bank array allocations / placeholder writes of WOPN_Init not found (%d, %d)' % (len(allocs), len(subs)))
+    def at_least_one(e):
+        e = strip(e)
+        c = const_of(e)
+        if c is not None:
+            return c >= 1
+        if e.get('k') == 'ConditionalOperator':
+            n_ = None
+            for f in literals(e['cnd'], True):
+                if f[0] == 'cmp':
+                    n_ = cmp_norm(f)
+            l, r = strip(e['l']), strip(e['r'])
+            if n_ and n_[0] == '!=' and n_[2] == 0 and show(strip(n_[1])) == show(l):
+                return at_least_one(r) if const_of(r) is not None else False
+            if n_ and n_[0] == '==' and n_[2] == 0 and show(strip(n_[1])) == show(r):
+                return at_least_one(l) if const_of(l) is not None else False
+        return False
+    for loc, fld, cal in allocs:
+        n = strip(cal['a'][0]) if cal.get('a') else None
+        cf = short(n['n']) if n is not None and n.get('k') == 'MemberExpr' else None
+        ok = cf is not None and cf.startswith('banks_count_') and kind(cf) == kind(fld)
+        out.append(Obl('C02.R7', fn.name, '%s = calloc(%s)' % (fld, show(n)[:40] if n else '?'), loc, 'discharged' if ok else 'finding',
+                       why='allocated with the stored count %s' % cf if ok else
+                       '%s is allocated with %s elements, not with the stored count banks_count_%s: whenever the two differ (a count of 0 is stored as 1) every user of the stored count writes and reads past the array' % (fld, show(n)[:40] if n else '?', 'percussion' if kind(fld) == 'perc' else 'melodic')))
+        if ok:
+            for dloc, d in count_defs.get(cf, []) or [(loc, None)]:
+                ok2 = d is not None and at_least_one(d)
+                out.append(Obl('C02.R7', fn.name, '%s >= 1' % cf, dloc, 'discharged' if ok2 else 'finding',
+                               why='every arm of the definition is non-zero' if ok2 else
+                               '%s can be stored as 0 while bank [0] of %s is written as the placeholder' % (cf, fld)))
+    for loc, fld, idx in subs:
+        c = const_of(idx)
+        ok = c == 0
+        out.append(Obl('C02.R7', fn.name, '%s[%s]' % (fld, show(idx)[:20]), loc, 'discharged' if ok else 'finding',
+                       why='subscript 0 < stored count (>= 1)' if ok else 'subscript %s of %s is not below the minimum element count 1' % (show(idx)[:20], fld)))
+    return out
 
 
 def r6_cores():
